@@ -97,6 +97,8 @@ def decide_block_loop(S: Sem, lp: ast.For, length_names: Optional[Set[str]] = No
             width = d
     if width is None or not lo.equals(I * width):
         return None, "", desc
+    if width.d.as_const() is not None and width.as_poly().as_const() == 1:
+        return None          # one entry per pass: an element loop, not a block loop
     m = S.resolve(args[0], at)
     mt = norm(m).replace(" ", "")
     # the block size as it is spelled in the header
